@@ -328,6 +328,7 @@ class TrajArm(Arm):
                            "values": draw(st.lists(fl, min_size=steps, max_size=steps))}]
             return {"spec": spec, "inputs": inputs,
                     "cfg": {"backend": be, "solver": draw(st.sampled_from(sol)), "dt": 0.01, "steps": steps, "m": m,
+                            "again_other_dt": draw(st.sampled_from([False, True])),
                             "vectorize": (draw(st.booleans()) if be != "fortran" else False)}}
         from ..finding_predicates import repair_case
         return case().map(lambda c: repair_case(c, ctx))
@@ -419,6 +420,33 @@ class TrajArm(Arm):
             r = int(np.argmax(np.abs(a[:, j] - a0[:, j]) / (1 + np.abs(a0[:, j])) > tol))
             res.violate(f"trajectory-differs:{be}:{solver}", f"{sp[j]} from row {r} on: {be} {a[r, j]!r} vs NumPy {a0[r, j]!r} "
                                                              f"(max rel. dev {err:.3g}; dt={dt}, dts={dts}, input={bool(inputs)}, vec={vec})")
+            return res
+        if cfg.get("again_other_dt") and not adaptive and not inputs and be != "fortran":
+            # the same model once more in this process, with the same numbers of steps but twice the step size (no cache
+            # is reset in between: what a backend keeps from the first run must not leak into the second)
+            from ..model import build_circuit
+            dt2 = 2 * dt
+            res.labels.append(f"again_other_dt:{be}")
+            try:
+                df2 = run_circuit(spec, steps * dt2, dt2, dict(outputs), solver=solver, backend=be, vectorize=vec, dts=m * dt2,
+                                  circuit=build_circuit(spec))
+                a2 = np.column_stack([np.asarray(df2[f"v{i}"], dtype=float) for i in range(len(sp))])
+                df02 = run_circuit(spec, steps * dt2, dt2, dict(outputs), solver=solver, backend="default", vectorize=vec,
+                                   dts=m * dt2)
+                a02 = np.column_stack([np.asarray(df02[f"v{i}"], dtype=float) for i in range(len(sp))])
+            except HarnessError:
+                raise
+            except Exception as e:
+                res.violate(exc_bucket(f"second-run-raises:{be}:{solver}", e),
+                            f"second run of the same model with step size {dt2}: {short_exc(e)}")
+                return res
+            if not np.all(np.isfinite(a02)) or np.max(np.abs(a02)) > 1e6:
+                return res
+            err2 = float(np.max(np.abs(a2 - a02) / (1 + np.abs(a02)))) if a2.shape == a02.shape else float("inf")
+            if err2 > 1e-8:
+                res.violate(f"second-run-differs:{be}:{solver}",
+                            f"a second run of the same model in one process with step size {dt2} (first: {dt}) deviates from "
+                            f"the NumPy backend at these settings (max rel. dev {err2:.3g}; vec={vec})")
         return res
 
     sample = VfArm.sample
